@@ -261,6 +261,23 @@ func (t *vhTrace) SendWriter() *io.Writer    { return &t.sw }
 func (t *vhTrace) ReceiveWriter() *io.Writer { return &t.rw }
 
 func vhNewTCP(conn net.Conn, limit int64) *tcpTransport {
+	if vParam("viaaccept", 0) == 1 {
+		// the way a server gets its transports: through the TCP listener's Accept
+		l := &tcpTransportListener{TCPConfig: TCPConfig{ReadLimit: limit}}
+		if vParam("trace", 0) == 1 {
+			l.TraceWriter = &vhTrace{sw: &vhDiscard{}, rw: &vhDiscard{}}
+		}
+		l.listener = vhNetListener{}
+		l.done = make(chan struct{})
+		l.connChan = make(chan net.Conn, 1)
+		l.connChan <- conn
+		tr, err := l.Accept(context.Background())
+		if err == nil {
+			if t, ok := tr.(*tcpTransport); ok {
+				return t
+			}
+		}
+	}
 	t := &tcpTransport{TCPConfig: TCPConfig{ReadLimit: limit}}
 	if vParam("trace", 0) == 1 {
 		t.TraceWriter = &vhTrace{sw: &vhDiscard{}, rw: &vhDiscard{}}
@@ -570,7 +587,9 @@ func HarnessC09TCPEncryption() {
 	start := vNow()
 	var ctx context.Context = context.Background()
 	hasDeadline := nondetBool("ctx.deadline")
-	dl := int64(nondetInt("ctx.deadline-at"))
+	dlOff := int64(nondetInt("ctx.deadline-after"))
+	vAssume(dlOff < int64(1000*time.Hour))
+	dl := start + dlOff
 	if hasDeadline {
 		vAssume(dl > start)
 		c, cancel := context.WithDeadline(context.Background(), vTimeOf(dl))
